@@ -276,6 +276,10 @@ def update(h: Distogram, value: float, count: int = 1) -> Distogram:  # pragma: 
     Raises:
         ValueError if count is not strictly positive.
     """
+    # the stored centre is _caster(value): compare and record the same number (after dump() the
+    # bins of a histogram are float128, and merging them in handed update() uncast values)
+    value = _caster(value)
+
     if count <= 0:
         raise ValueError("count must be strictly positive")
 
